@@ -409,3 +409,9 @@ def server_stream_chunking(cut: int, b0: int, b1: int, e0: int, e1: int, kind: s
 
 
 _flags.int_format_placeholder = True     # log f-strings with symbolic ints are not the subject here (see vf/flags.py)
+
+
+def e2_obligations(tier):
+    """wide-range verification conditions over the AST of the real source (vf/e2.py, vf/e2k.py)"""
+    from vf import e2k
+    return [e2k.packet_parser_iteration()]
